@@ -301,6 +301,19 @@ func applyByteFault(m *message, f *engine.Fault, recorded []*message) bool {
 			return false
 		}
 		fl := fr.Fields[int(f.N[0])%len(fr.Fields)]
+		if (f.N[2]>>3)%3 == 0 {
+			// one flip in three goes to the small fixed header fields (dates, flags,
+			// cost, counts, lengths): few bytes, much meaning
+			var hdr []refmodel.Field
+			for _, x := range fr.Fields {
+				if x.Class == refmodel.ClsHeader || x.Class == refmodel.ClsCount || x.Class == refmodel.ClsLen {
+					hdr = append(hdr, x)
+				}
+			}
+			if len(hdr) > 0 {
+				fl = hdr[int(f.N[0])%len(hdr)]
+			}
+		}
 		if fl.End <= fl.Start || fl.End > len(raw) {
 			return false
 		}
